@@ -69,6 +69,40 @@ def main():
                 e = sigs.setdefault(s.sig, {"signature": s.sig, "key": s.key, "roots": [], "where_today": s.fn.file_line(s.block)})
                 if kind not in e["roots"]:
                     e["roots"].append(kind)
+    # every field of `self` a function with reviewed sites reads: part of the function's provenance envelope
+    fn_fields = {}
+    for cfg in ("lib", "lib_crc32c"):
+        prog, _ = load_program(cfg, "e57")
+        for pth, fn in prog.fns.items():
+            flds = set()
+            def visit(pl):
+                if pl["local"] == 1:
+                    names = [e["name"] for e in pl["proj"] if e["k"] == "field" and e["name"]]
+                    for k in range(1, len(names) + 1):
+                        flds.add("arg1." + ".".join(names[:k]))
+            for b in fn.blocks:
+                if b["cleanup"]:
+                    continue
+                for st in b["stmts"]:
+                    visit(st["place"])
+                    rv = st["rv"]
+                    if "place" in rv:
+                        visit(rv["place"])
+                    for key in ("op", "a", "b"):
+                        if isinstance(rv.get(key), dict) and rv[key].get("k") in ("copy", "move"):
+                            visit(rv[key]["place"])
+                    if rv["k"] == "aggregate":
+                        for o in rv["ops"]:
+                            if o.get("k") in ("copy", "move"):
+                                visit(o["place"])
+                t = b["term"]
+                if t["k"] == "call":
+                    for a in t["args"]:
+                        if a.get("k") in ("copy", "move"):
+                            visit(a["place"])
+            if flds:
+                nm = short(pth) if "closure" not in pth else pth.split("::", 1)[-1]
+                fn_fields.setdefault(nm, set()).update(flds)
     out, open_ = [], []
     for sig, e in sorted(sigs.items()):
         for rx, reason in FAMILIES:
@@ -80,6 +114,7 @@ def main():
         else:
             open_.append(e)
     json.dump({"_comment": "panic sources reachable from the reader / writer API that the interval engine cannot discharge, keyed by provenance signature (function | assert kind or callee | where each operand comes from), each with the reviewed reason why it cannot fire. A site whose signature is not listed is reported as a violation; the file is never written by a check (tools/gen_residue.py is a maintenance tool).",
+               "function_fields": {k: sorted(v) for k, v in sorted(fn_fields.items()) if any(e["signature"].startswith(k + " |") for e in out)},
                "sites": out}, open(os.path.join(HERE, "spec", "reviewed_panic_sites.json"), "w"), indent=1)
     print("%d reviewed entries, %d OPEN" % (len(out), len(open_)))
     for e in open_:
